@@ -1074,6 +1074,9 @@ struct CEntry {
     stored: Vec<u64>,
     life: Option<Lifetime>,
     cleared: bool,
+    /// every record that counts for L sits in the answer section, so that `Lookup::valid_until`
+    /// (derived from the answer records) has to respect L as well
+    answers_only: bool,
 }
 
 fn client_body(h: &CHist, rec: &mut Rec) -> CaseResult {
@@ -1206,6 +1209,9 @@ fn client_body(h: &CHist, rec: &mut Rec) -> CaseResult {
                 let result = futures_executor::block_on(client.lookup(query.clone(), DnsRequestOptions::default()));
                 let asked = *up.calls.lock().unwrap() > calls_before;
                 *up.next.lock().unwrap() = None;
+                // `Lookup::valid_until` (what callers use to schedule a refresh) against the model,
+                // judged below once the model entry for this lookup is known
+                let validity_left_ns = result.as_ref().ok().map(|l| l.valid_until().saturating_duration_since(std::time::Instant::now()).as_nanos() as u64);
 
                 let live = model[s]
                     .as_ref()
@@ -1323,6 +1329,7 @@ fn client_body(h: &CHist, rec: &mut Rec) -> CaseResult {
                                 stored,
                                 life,
                                 cleared: false,
+                                answers_only: !(glue.is_some() && qtype.code() == 1) && !(ns.is_some() && qtype.code() == 2),
                             });
                         }
                         Upstream::Alias { cnames, ttls } => {
@@ -1350,6 +1357,7 @@ fn client_body(h: &CHist, rec: &mut Rec) -> CaseResult {
                                 positive: Some(msg),
                                 life,
                                 cleared: false,
+                                answers_only: true,
                             });
                         }
                         Upstream::Negative { soa, .. } => {
@@ -1361,10 +1369,27 @@ fn client_body(h: &CHist, rec: &mut Rec) -> CaseResult {
                                 stored: nttl.map(|n| vec![n as u64]).unwrap_or_default(),
                                 life: cref::negative_lifetime(&cfg, qtype.code(), nttl),
                                 cleared: false,
+                                answers_only: false,
                             });
                         }
                         // transient: nothing cacheable, the previous entry (if any) stays what it was
                         Upstream::ServFail | Upstream::Timeout => {}
+                    }
+                }
+                if let (Some(left), Some(e)) = (validity_left_ns, model[s].as_ref()) {
+                    if let (Some(l), true) = (e.life, e.positive.is_some() && e.answers_only && !e.cleared) {
+                        let age = now_ns - e.t_fetch;
+                        // TTLs are whole seconds: a Lookup rebuilt from the cache dates its validity
+                        // from the remaining TTL, which over-states the rest by less than a second
+                        let bound = (l.hi * NS_PER_S).saturating_sub(age) + NS_PER_S - 1;
+                        vensure!(
+                            left <= bound,
+                            "client-lookup-valid-until-beyond-lifetime",
+                            "op {i}: lookup(q{s}) {:.3}s after the fetch reports valid_until {:.3}s ahead, L = {}s",
+                            age as f64 / 1e9,
+                            left as f64 / 1e9,
+                            l.hi
+                        );
                     }
                 }
             }
